@@ -7,7 +7,7 @@
 PROPS = {
     "C01": {
         "level": "exploration",
-        "steps": [("hv", "C01", {}), ("py", "san", "cachegrind", "thorough_only"), ("py", "san", "asan", "thorough_only")],
+        "steps": [("hv", "C01", {}), ("py", "lsx", "run_c01"), ("py", "san", "cachegrind", "thorough_only"), ("py", "san", "asan", "thorough_only")],
         "rule": "documents from G-corpus prefix closure, clauses, hostile Unicode, mutations, fixtures, long/nesting families and "
                 "grammar-generated files, through all 29 front-ends (x wrappers, x rule configurations x dialects), each run under a "
                 "crash monitor (catch_unwind + process-death observation), a CPU-time hang monitor and (thorough) instruction-count "
@@ -36,7 +36,7 @@ PROPS = {
     },
     "C04": {
         "level": "exploration",
-        "steps": [("hv", "C04", {})],
+        "steps": [("hv", "C04", {}), ("py", "lsx", "run_c04")],
         "rule": "files generated from per-front-end grammars with ground truth (prose / non-prose / URL / ignore-marked / optional segments); "
                 "oracle = interval arithmetic over the segments: every prose word is a Word token at its exact span, no lintable token "
                 "intersects non-prose, planted misspellings are flagged at their offset; non-trivial = prose word located after a multi-byte "
@@ -103,7 +103,7 @@ PROPS = {
     },
     "C11": {
         "level": "exploration",
-        "steps": [("hv", "C11", {"_scale": 4.0})],
+        "steps": [("hv", "C11", {"_scale": 4.0}), ("py", "lsx", "run_c11")],
         "rule": "(A) configuration algebra on random {on, off, unset, null, unknown-key} assignments: overlay law through fill_with_curated / merge_from / set_rule_enabled_if_unset, merge "
                 "order, JSON round trip; (B) documents of 2-3 rule sentences: lints of every single rule computed once, then random configurations compared with the multiset sum of "
                 "the enabled singles, random 2-partitions, rule attribution through hook H1 (nothing disabled runs), unknown keys, and the JS-facing overlay path; "
